@@ -1,4 +1,6 @@
 #!/bin/sh
+# Development helper only (nothing registered in MANIFEST.json uses it). Needs a scratch clone of /repo at /tmp/repo_fixed
+# (git clone /repo /tmp/repo_fixed) and builds in /tmp/hw/<workspace>; both are removed at the end of a session.
 # tools/try_fixed.sh <workspace> <ID> [tier] [seed] — development helper: run the current /verif/harness sources against
 # /tmp/repo_fixed (a clone whose tree equals /repo HEAD) without touching /repo (which may have a seed applied).
 WS=$1; ID=$2; TIER=${3:-quick}; SEED=${4:-20260926}
